@@ -592,4 +592,4 @@ class Ref:
         if op["what"] == "var" and not out.startswith("raised"):
             self.user_vars.discard(f"uvar{op['name']}")
 
-    op_solver = op_optimize = op_repair = op_add_cons = _noop
+    op_solver = op_optimize = op_repair = op_add_cons = op_detached_arith = _noop
